@@ -63,7 +63,7 @@ func cmdSig(args []string) {
 		}
 		// the custom function lives next to the converter or in x1/ext / x2/ext
 		q, xi := "", -1
-		if s.Use == "extend" && pkgOf[i] == "p" && s.Place != "local" && s.Place != "regex" && s.Place != "typename" && s.Place != "" {
+		if s.Use == "extend" && pkgOf[i] == "p" && s.Place != "local" && s.Place != "regex" && s.Place != "typename" && s.Place != "methoddoc" && s.Place != "" {
 			q, xi = "p.", int(s.Place[1]-'1')
 		}
 		var ps []string
@@ -137,6 +137,8 @@ func cmdSig(args []string) {
 				fdoc = strings.Replace(fdoc, cl, "//\tgoverter:context ctx  \n", 1)
 			case "prose":
 				fdoc = strings.Replace(fdoc, cl, "// see goverter:context ctx\n", 1)
+			case "longline":
+				fdoc = strings.Replace(fdoc, cl, "// "+strings.Repeat("x", 70000)+"\n"+cl, 1)
 			case "tabsep":
 				fdoc = strings.Replace(fdoc, cl, "// goverter:context\tctx\n", 1)
 			case "detached":
@@ -152,6 +154,9 @@ func cmdSig(args []string) {
 			if xi >= 0 {
 				fsrc, ext = &srcX[xi], fmt.Sprintf("%s/x%d/ext:F%d", b.Mod, xi+1, i)
 				usedX[xi] = true
+			}
+			if s.Place == "methoddoc" {
+				fmt.Fprintf(fsrc, "\ntype Tm%d struct{}\n\n// goverter:context source\n// goverter:context other\nfunc (Tm%d) F%d() {}\n", i, i, i)
 			}
 			if s.Place == "typename" {
 				// a declared func type of this name instead of a function
